@@ -248,15 +248,17 @@ def run(case):
             if case['kind'] == 'blind':
                 srcs = _guard(o, ctx, lambda: _blind(fn, case, rms))
                 if srcs is None:
-                    return o.result()
+                    return _own(o)
                 comps, isles = _rows(srcs)
                 o.n_eval += 1
+                o.count('own_runs')
                 srcs2 = _guard(o, ctx, lambda: _blind(fn, case, rms))
                 o.n_eval += 1
+                o.count('own_runs')
             else:
                 cat = _guard(o, ctx, lambda: _input_catalogue(case, fn, rms, truth, z))
                 if cat is None:
-                    return o.result()
+                    return _own(o)
                 o.count('priorized_input_sources', len(cat))
                 import copy
                 cat_first = copy.deepcopy(cat)          # identical input for both runs
@@ -266,15 +268,17 @@ def run(case):
                 if before != after and not all(_same(list(a.values()), list(b.values())) for a, b in zip(before, after)):
                     o.count('priorized_runs_that_modified_their_input_objects')      # observed, judged by C19/C05
                 if srcs is None:
-                    return o.result()
+                    return _own(o)
                 comps, isles = _rows(srcs)
                 o.n_eval += 1
+                o.count('own_runs')
                 o.count('priorized_runs')
                 o.see('priorized_stage_regroup', '%d/%s' % (case['stage'], case['regroup']))
                 if len(cat) > 20:
                     o.count('priorized_runs_over_20_inputs')
                 srcs2 = _guard(o, ctx, lambda: _prior(fn, case, rms, copy.deepcopy(cat)))
                 o.n_eval += 1
+                o.count('own_runs')
                 skipped = 0
                 for s_ in cat:
                     i_, j_ = [int(round(float(v))) for v in z.sky2index(s_.ra, s_.dec)]
@@ -316,6 +320,7 @@ def run(case):
             fr = json.load(open(oj))
             o.count('fresh_process_reruns')
             o.n_eval += 1
+            o.count('own_runs')
             compare_runs(o, json.loads(json.dumps(comps, default=_jd)), fr['comps'], 'fresh interpreter', ctx)
             compare_runs(o, json.loads(json.dumps(isles, default=_jd)), fr['isles'], 'island rows, fresh interpreter', ctx)
         # ---- the written table
@@ -323,10 +328,18 @@ def run(case):
             _check_table(o, ctx, srcs, comps, sc)
         o.sample = {'mode': ctx['mode'], 'injected': len(truth), 'components': len(comps), 'island_rows': len(isles),
                     'first_row': comps[0] if comps else None}
-        return o.result()
+        return _own(o)
     finally:
         _disarm()
         shutil.rmtree(sc, ignore_errors=True)
+
+
+def _own(o):
+    """evaluations = finder runs of this property (counted in own_runs); contract evaluations are reported apart"""
+    own = o.counters.get('own_runs', 0)
+    o.count('insitu_contract_evaluations', max(0, o.n_eval - own))
+    o.n_eval = own
+    return o.result()
 
 
 def _guard(o, ctx, fn):
